@@ -33,14 +33,28 @@ def main():
 
 
 def replay(mod, path):
-    """re-run the native replay recorded in a replay file against the current /repo"""
+    """re-run the native replay of the obligation named in a replay file against the current /repo: the obligations are
+    regenerated from the current source, the one with the recorded name is looked up and its native driver is run on the
+    recorded counter-model"""
+    from pyvc import report
     with open(path) as f:
         rep = json.load(f)
-    fn = getattr(mod, 'replay', None)
-    if fn is None:
-        print('no native replay defined for this property; recorded result:', json.dumps(rep.get('native_replay')))
+    if rep.get('kind') == 'bounded' or 'obligation' not in rep:
+        print('bounded stand-in / recorded finding; recorded result:', json.dumps(rep.get('native_replay') or rep, default=str)[:2000])
+        return 1 if (rep.get('native_replay') or {}).get('confirmed') else 0
+    chk = report.Check(rep.get('property', 'C00'), 'quick', 0)
+    mod.build(chk)
+    want = rep['obligation']
+    ob = next((o for o in chk.obs if o.name == want), None)
+    if ob is None:
+        import fnmatch
+        ob = next((o for o in chk.obs if fnmatch.fnmatch(o.name, want)), None)
+    if ob is None or ob.replay is None:
+        print('obligation %s %s; recorded result: %s' % (want, 'is not generated from the current source' if ob is None else
+                                                       'has no native driver', json.dumps(rep.get('native_replay'), default=str)))
         return 0
-    res = fn(rep)
+    model = rep.get('model') or {}
+    res = ob.replay(model.get('env', model) if isinstance(model, dict) else {})
     print(json.dumps(res, indent=1, default=str))
     if res.get('confirmed'):
         print('VIOLATION property=%s replay=%s' % (rep['property'], path))
